@@ -77,7 +77,7 @@ impl Bits {
         // about frames in a stream): ground truth applies whenever, by construction of the
         // trace, it sits at a frame boundary (start of run, or clear() since the last
         // length-changing fault)
-        let mut stream = Ps2Decoder::new();
+        let mut stream = if trace.cfg.obj == 1 { Ps2Decoder::default() } else { Ps2Decoder::new() };
         let mut aligned = true;
         let mut kb = KbAny::new(2, DynLayout::Direct(2), hc(true));
         let mut violation: Option<Violation> = None;
@@ -325,7 +325,7 @@ impl Bits {
     /// rule itself (C05) is deliberately not consulted.
     fn execute_c06(&self, trace: &Trace, env: &mut Env) -> Outcome {
         let mut h = LogHash::new();
-        let mut real = Ps2Decoder::new();
+        let mut real = if trace.cfg.obj == 1 { Ps2Decoder::default() } else { Ps2Decoder::new() };
         let mut model = RefFramer::new(); // used as a bit collector / counter only
         let mut aligned = true;
         let mut any_fault = false;
@@ -611,6 +611,7 @@ impl Scenario for Bits {
         cfg.set = 2;
         let rate_class = (run % 4) as u8;
         cfg.rate = rate_class;
+        cfg.obj = ((run / 16) % 2) as u8; // 1: the long-lived decoder is built through Default
         let rate_pct = [0u64, 1, 10, 40][rate_class as usize];
         // wire timing knobs (randomised per run: correctness must not depend on one timeout)
         let period = rng.range(60, 100) * US;
